@@ -801,6 +801,13 @@ def opaque(name: str, *args: Rat, array: Optional[bool] = None, extra=None) -> R
             back = None
         if back is not None and back < 0 and Fraction(back).denominator == 1:
             args = (args[0], Rat.const(back))
+    if name == "slice" and len(args) == 3 and LENGTH_HOOK is not None and args[1].is_zero() and args[2].symbols() != {"None"}:
+        # x[0:len(x)] is x
+        try:
+            if args[2].equals(LENGTH_HOOK(args[0])):
+                return args[0]
+        except Exception:
+            pass
     return _fn_atom(name, tuple(args), array, extra)
 
 
